@@ -1,6 +1,9 @@
 package props
 
-import "astverif/crc"
+import (
+	"astverif/crc"
+	"astverif/crcgate"
+)
 
 func init() { register("C10", "proof", c10) }
 
@@ -23,4 +26,8 @@ func c10(c *Ctx) {
 		"astikit v0.30.0 summaries: BitsWriter.Write(uint32) (also via BitsWriterBatch) emits the 4 bytes most significant first; the BitsWriter write callback receives exactly the bytes written; BytesIterator.NextBytesNoCopy(n) returns the next n stream bytes in order",
 	}
 	crc.Prove(c.P, r)
+	// the checksum ENFORCED on input is this very function compared for equality with the stored CRC_32 (no alternative
+	// value accepted): the input gate of C09
+	crcgate.InputGate(c.P, r)
+
 }
